@@ -876,3 +876,81 @@ Proof.
   - apply Qeq_bool_iff. vm_compute. reflexivity.
   - reflexivity.
 Qed.
+
+(* ================================================================== call sites *)
+Lemma sget_sset_same k v s : sget k (sset k v s) = Some v.
+Proof.
+  induction s as [|[k' v'] s IH]; cbn [sset sget].
+  - now rewrite Z.eqb_refl.
+  - destruct (Z.eqb k k') eqn:E; cbn [sget]; rewrite E; [reflexivity|exact IH].
+Qed.
+
+Lemma sget_sset_other k k' v s : k' <> k -> sget k' (sset k v s) = sget k' s.
+Proof.
+  intros Hne. induction s as [|[k2 v2] s IH]; cbn [sset sget].
+  - destruct (Z.eqb k' k) eqn:E; [apply Z.eqb_eq in E; congruence|reflexivity].
+  - destruct (Z.eqb k k2) eqn:E; cbn [sget].
+    + apply Z.eqb_eq in E. subst k2. destruct (Z.eqb k' k) eqn:E2; [apply Z.eqb_eq in E2; congruence|reflexivity].
+    + destruct (Z.eqb k' k2); [reflexivity|exact IH].
+Qed.
+
+(* wire fencing's settings: allowmaxlength becomes True, every other entry is the ensemble's *)
+Lemma wf_sub_settings_spec ka km vt s s' : wf_sub_settings ka km vt s = Some s' ->
+  sget ka s' = Some vt /\ forall k, k <> ka -> sget k s' = sget k s.
+Proof.
+  unfold wf_sub_settings. destruct (sget km (sset ka vt s)) as [m|] eqn:Em; [|discriminate].
+  intros H. injection H as <-. split.
+  - destruct (Z.eq_dec ka km) as [->|Hne].
+    + rewrite sget_sset_same in Em. injection Em as <-. apply sget_sset_same.
+    + rewrite sget_sset_other by congruence. apply sget_sset_same.
+  - intros k Hk. destruct (Z.eq_dec k km) as [->|Hne].
+    + rewrite sget_sset_same. rewrite sget_sset_other in Em by exact Hk. now rewrite Em.
+    + rewrite sget_sset_other by exact Hne. now apply sget_sset_other.
+Qed.
+
+(* every call site: the settings handed to modify_velocities are the ensemble's settings,
+   restricted to nothing -- only allowmaxlength may differ *)
+Theorem call_site_settings ka km vt mv s hs h k :
+  handed ka km vt mv s = Some hs -> In h hs -> k <> ka -> sget k h = sget k s.
+Proof.
+  unfold handed, handed_with. destruct mv as [|[|] n].
+  - intros H. injection H as <-. intros [<-|[]] _. reflexivity.
+  - destruct (wf_sub_settings ka km vt s) as [s'|] eqn:E; [|discriminate].
+    intros H. injection H as <-. intros Hin Hk. apply repeat_spec in Hin. subst h.
+    now apply (proj2 (wf_sub_settings_spec ka km vt s s' E)).
+  - intros H. injection H as <-. intros [].
+Qed.
+
+(* number of regenerations: one per shooting move, one per jump of a usable wire-fencing move *)
+Theorem call_site_count ka km vt mv s hs : handed ka km vt mv s = Some hs ->
+  length hs = match mv with MShoot => 1%nat | MWireFencing true n => n | MWireFencing false _ => 0%nat end.
+Proof.
+  unfold handed, handed_with. destruct mv as [|[|] n].
+  - intros H. now injection H as <-.
+  - destruct (wf_sub_settings ka km vt s); [|discriminate]. intros H. injection H as <-. apply repeat_length.
+  - intros H. now injection H as <-.
+Qed.
+
+(* zero momentum requested for the ensemble => every velocity regeneration of every move,
+   the ones inside a wire-fencing move included, writes velocities with zero total momentum *)
+Theorem call_site_momentum_zero ka km vt kz mv s hs h e mass src ek sig z :
+  handed ka km vt mv s = Some hs -> In h hs -> kz <> ka -> sget kz s = Some vt ->
+  ~ sumQ mass == 0 -> length sig = length mass -> Forall (fun zc => length zc = length mass) z ->
+  Forall (fun c => mom_col mass c == 0)
+         (f_vel (r_frame (modify_std e mass src ek (zm_of vt (sget kz h)) sig z))).
+Proof.
+  intros Hh Hin Hk Hz Hm Hs Hzc. rewrite (call_site_settings ka km vt mv s hs h kz Hh Hin Hk), Hz.
+  apply modify_std_momentum_zero; [|exact Hm|exact Hs|exact Hzc].
+  unfold zm_of, use_zm. now rewrite Z.eqb_refl.
+Qed.
+
+(* the fresh-dictionary variant loses the request: TurtleMD (default False) then keeps the
+   centre-of-mass motion *)
+Theorem call_site_rebuilt_refuted : exists ka km vt kz s hs h,
+  kz <> ka /\ sget kz s = Some vt /\
+  handed_with (wf_sub_settings_rebuilt ka km vt) (MWireFencing true 1) s = Some hs /\ In h hs /\
+  sget kz h = None /\ use_zm Turtle (zm_of vt (sget kz h)) = false.
+Proof.
+  exists 0%Z, 1%Z, 1%Z, 2%Z, [(1, 7); (0, 0); (2, 1)]%Z, [[(0, 1); (1, 7)]%Z], [(0, 1); (1, 7)]%Z.
+  repeat split; try reflexivity; try (now left). discriminate.
+Qed.
